@@ -261,6 +261,7 @@ func runC04(c *Ctx) {
 	c.r0428(pk)
 	c.r0429(pk)
 	c.r0431(pk)
+	c.r0432(pk)
 	// positions remembered while rewriting a value list (background layers) stay valid: same rule as R10.5, css only
 	c.alsoUnder(map[string]string{"R10.5": "R04.8"}, func(construct string) bool {
 		return strings.HasPrefix(construct, "css.") || strings.HasPrefix(construct, "floor/")
@@ -601,6 +602,7 @@ func runC09own(c *Ctx) {
 	c.r0924(pk)
 	c.r0925(pk)
 	c.r0148(pk, "R09.26")
+	c.r0930(pk)
 	// `a||b??c` is a syntax error: the level tests of the conditional rewrites are validity clauses too
 	c.alsoUnder(map[string]string{"R01.38": "R09.29"}, nil, func() { c.r0138(pk) })
 }
@@ -2288,4 +2290,178 @@ func (c *Ctx) r0431(pk *packages.Package) {
 		return true
 	})
 	c.R.Floor(rule, "case clauses with several properties", n, 4)
+}
+
+// R04.32: the property tests of minifyTokens see a vendor-prefixed alias under the name of the property it prefixes.
+func (c *Ctx) r0432(pk *packages.Package) {
+	const rule = "R04.32"
+	c.R.Rule(rule, "cssMinifier.minifyTokens exempts properties from a rewrite by comparing the property's hash (`prop != Flex`: a zero <flex-basis> keeps its unit, `1 0` would be a grow and a shrink factor). A vendor-prefixed alias (-webkit-flex, -ms-flex) takes the same values and has no hash of its own: the hash minifyDeclaration hands to minifyTokens is not only the hash of the whole property name — some definition of it hashes the name behind the prefix, under a test of the leading `-`")
+	info := pk.TypesInfo
+	ft := c.fn(rule, pk, "cssMinifier.minifyTokens")
+	fd := c.fn(rule, pk, "cssMinifier.minifyDeclaration")
+	if ft == nil || fd == nil {
+		return
+	}
+	isHash := func(e ast.Expr) bool {
+		t := info.TypeOf(e)
+		return t != nil && strings.HasSuffix(types.TypeString(t, nil), "/css.Hash")
+	}
+	var prop types.Object
+	if len(ft.Type.Params.List) > 0 && len(ft.Type.Params.List[0].Names) > 0 {
+		prop = info.Defs[ft.Type.Params.List[0].Names[0]]
+	}
+	exempt := map[string]bool{}
+	ast.Inspect(ft.Body, func(n ast.Node) bool {
+		be, ok := n.(*ast.BinaryExpr)
+		if !ok || be.Op != token.NEQ || !isHash(be.X) || !isHash(be.Y) {
+			return true
+		}
+		for _, pr := range [][2]ast.Expr{{be.X, be.Y}, {be.Y, be.X}} {
+			id, ok := ast.Unparen(pr[0]).(*ast.Ident)
+			if !ok || prop == nil || info.Uses[id] != prop {
+				continue
+			}
+			if tv, ok := info.Types[pr[1]]; ok && tv.Value != nil && constant.Sign(tv.Value) != 0 {
+				exempt[nospace(str(pr[1]))] = true
+			}
+		}
+		return true
+	})
+	var names []string
+	for k := range exempt {
+		names = append(names, k)
+	}
+	sort.Strings(names)
+	if len(names) == 0 {
+		c.R.OK(rule, "css.cssMinifier.minifyTokens/no property is exempted from a rewrite", c.pos(ft), "no comparison prop != <property> in minifyTokens")
+		return
+	}
+	name := paramOfType(info, fd, "[]byte")
+	n := 0
+	for _, call := range findCalls(info, fd.Body, false, load.Mod+"/css.(cssMinifier).minifyTokens") {
+		if len(call.Args) == 0 {
+			continue
+		}
+		n++
+		id, _ := ast.Unparen(call.Args[0]).(*ast.Ident)
+		stripped := false
+		if id != nil && name != nil {
+			obj := info.Uses[id]
+			var visit func(x ast.Node, underDash bool)
+			visit = func(x ast.Node, underDash bool) {
+				ast.Inspect(x, func(y ast.Node) bool {
+					switch y := y.(type) {
+					case *ast.IfStmt:
+						chars, _, _ := c.constsIn(pk, y.Cond)
+						if y.Init != nil {
+							visit(y.Init, underDash)
+						}
+						visit(y.Body, underDash || chars['-'])
+						if y.Else != nil {
+							visit(y.Else, underDash)
+						}
+						return false
+					case *ast.AssignStmt:
+						for i, l := range y.Lhs {
+							lid, ok := l.(*ast.Ident)
+							if !ok || i >= len(y.Rhs) || (info.Uses[lid] != obj && info.Defs[lid] != obj) {
+								continue
+							}
+							for _, h := range findCalls(info, y.Rhs[i], false, load.Mod+"/css.ToHash") {
+								if len(h.Args) != 1 {
+									continue
+								}
+								se, ok := ast.Unparen(h.Args[0]).(*ast.SliceExpr)
+								if !ok || se.Low == nil {
+									continue
+								}
+								if b, ok := ast.Unparen(se.X).(*ast.Ident); ok && info.Uses[b] == name && underDash {
+									stripped = true
+								}
+							}
+						}
+					}
+					return true
+				})
+			}
+			visit(fd.Body, false)
+		}
+		c.R.Check(stripped, rule, fmt.Sprintf("css.cssMinifier.minifyDeclaration/property tests of minifyTokens (%s) see the name behind a vendor prefix", strings.Join(names, ", ")), c.pos(call),
+			"the hash handed to minifyTokens is also computed from the property name behind its `-vendor-` prefix",
+			"minifyTokens gets the hash of the whole property name, which is 0 for -webkit-flex / -ms-flex: the exemption of "+strings.Join(names, ", ")+" does not apply and `-webkit-flex:1 0px` becomes `-webkit-flex:1 0` (grow 1, shrink 0 instead of a zero basis)")
+	}
+	c.R.Floor(rule, "calls of minifyTokens in minifyDeclaration", n, 1)
+}
+
+// R09.30: the parentheses around the identifiers let and async stay.
+func (c *Ctx) r0930(pk *packages.Package) {
+	const rule = "R09.30"
+	c.R.Rule(rule, "ECMA-262 restricts what an expression may start with by look-ahead on identifiers: an ExpressionStatement and a for-init not with `let [`, the left-hand side of for-in / for-of not with `let`, of for-of not with `async of`. `(let)[0]=1`, `for((let) of x);` and `for((async) of x);` are valid because of their parentheses. jsMinifier.minifyExpr, case *js.GroupExpr, drops the parentheses by comparing levels; every path from the head of the case to the print of the content at the level of the parent passes a test whose condition mentions both identifiers (reference: ref.JSLookaheadIdents)")
+	info := pk.TypesInfo
+	fd := c.fn(rule, pk, "jsMinifier.minifyExpr")
+	if fd == nil {
+		return
+	}
+	g := c.graph(pk, fd)
+	head := caseHead(g, "*js.GroupExpr")
+	if head == nil {
+		c.R.Unres(rule, "js.jsMinifier.minifyExpr/case *js.GroupExpr", c.pos(fd), "case not found")
+		return
+	}
+	var prec types.Object
+	if fd.Type.Params != nil {
+		for _, f := range fd.Type.Params.List {
+			for _, nm := range f.Names {
+				if t := info.TypeOf(f.Type); t != nil && strings.HasSuffix(t.String(), "js.OpPrec") {
+					prec = info.Defs[nm]
+				}
+			}
+		}
+	}
+	asks := func(q *flow.Node) bool {
+		if q.Kind != flow.KCond {
+			return false
+		}
+		var whole ast.Node = q.Expr
+		for x := c.P.Parent(q.Expr); x != nil; x = c.P.Parent(x) {
+			if ifs, ok := x.(*ast.IfStmt); ok {
+				if ifs.Cond.Pos() <= q.Expr.Pos() && q.Expr.End() <= ifs.Cond.End() {
+					whole = ifs.Cond
+				}
+				break
+			}
+			if _, ok := x.(ast.Stmt); ok {
+				break
+			}
+		}
+		_, strs, _ := c.constsIn(pk, whole)
+		for _, id := range ref.JSLookaheadIdents {
+			if !strs[id] {
+				return false
+			}
+		}
+		return true
+	}
+	n := 0
+	for _, y := range g.Nodes {
+		a := y.Ast()
+		if a == nil || y.Kind != flow.KStmt || c.caseLabel(a) != "case *js.GroupExpr" {
+			continue
+		}
+		for _, call := range findCalls(info, a, false, load.Mod+"/js.(jsMinifier).minifyExpr") {
+			if len(call.Args) != 2 {
+				continue
+			}
+			id, ok := ast.Unparen(call.Args[1]).(*ast.Ident)
+			if !ok || info.Uses[id] != prec {
+				continue // printed inside its own parentheses at a constant level
+			}
+			n++
+			y := y
+			p := g.Path(flow.Search{From: []*flow.Node{head}, Goal: func(q *flow.Node) bool { return q == y }, Avoid: asks})
+			c.R.Check(p == nil, rule, fmt.Sprintf("js.jsMinifier.minifyExpr/case *js.GroupExpr/content printed without parentheses#%d only after a look at the identifiers let and async", n), c.pos(call), "every path from the head of the case to the print passes a test that mentions "+strings.Join(ref.JSLookaheadIdents, " and "),
+				"the parentheses of a group are dropped by comparing levels only: `(let)[0]=1` → `let[0]=1` (a lexical declaration with an array pattern: SyntaxError), `for((async) of x);` → `for(async of x);` (SyntaxError), `for((let) of x);` → `for(let of x);`: "+pathStr(c, g, p))
+		}
+	}
+	c.R.Floor(rule, "prints of a group's content without parentheses", n, 1)
 }
